@@ -10,7 +10,7 @@ CONSTANTS
   FaultSites = {}
   MaxCtx = 0
   MaxDepth = 5
-  ChainToggleChains = {}
+  ChainToggleChains = {"inline", "inline2"}
   Variant = "head"
 SPECIFICATION SpecP
 VIEW view
